@@ -8,6 +8,8 @@ import (
 	"go/token"
 	"go/types"
 	"strings"
+
+	"golang.org/x/tools/go/ssa"
 )
 
 func init() {
@@ -1212,8 +1214,17 @@ func splitTop(s, sep string) []string {
 }
 
 func runAff8(m *Model, r *RuleResult) {
-	res := affRun(m, "internal/phase2", "", "followLongestPath")
-	drv := affRun(m, "internal/phase2", "", "execLongestPath")
+	drvName := dispatchCallee(m, "internal/phase2", "LongestPath", "execLongestPath")
+	folName := "followLongestPath"
+	if d := m.SSAFunc("internal/phase2", drvName); d != nil {
+		for _, s := range staticCalls(d, func(c *ssa.Function) bool {
+			return pkgPathOf(c) == pkgPathOf(d) && len(staticCalls(c, func(c2 *ssa.Function) bool { return c2 == c })) > 0
+		}) {
+			folName = s.Common().StaticCallee().Name()
+		}
+	}
+	res := affRun(m, "internal/phase2", "", folName)
+	drv := affRun(m, "internal/phase2", "", drvName)
 	if res == nil || drv == nil {
 		r.undecided("longest-path", "-", "followLongestPath / execLongestPath", "not found")
 		return
@@ -1254,7 +1265,7 @@ func runAff8(m *Model, r *RuleResult) {
 			continue
 		}
 		nUpd++
-		want := "max(c:" + hname + ", " + hl.valVar + ".Delta + followLongestPath("
+		want := "max(c:" + hname + ", " + hl.valVar + ".Delta + " + folName + "("
 		if !strings.HasPrefix(s, want) {
 			okRec, why = false, "height is updated as "+s+", expected max(height, h(child) + e.Delta)"
 		}
